@@ -34,19 +34,23 @@ var histNames = []string{"x.caibx", "y.caibx", "z.caibx"}
 
 // histMax: longest generated history per store kind (0 = the kind keeps no named objects
 // or is not driven with histories). An S3 StoreIndex costs 0.1..0.3 s (minio allocates a
-// 640 MiB part buffer for an upload of unknown size), hence the short histories there.
-var histMax = map[string]int{"local": 8, "http": 8, "s3": 2, "sftp": 6}
+// 640 MiB part buffer for an upload of unknown size), hence a single overwrite there (the enumerated scenario has three).
+var histMax = map[string]int{"local": 8, "http": 8, "s3": 1, "sftp": 6}
 
 // histAccess is what a store kind offers to the history check.
 type histAccess struct {
 	store func(name string, idx desync.Index) error
 	get   func(name string) (desync.Index, error)
 	raw   func(name string) ([]image, error) // every raw copy of the object that can be observed
+	plant func(name string, b []byte) error  // put raw bytes under name behind the store's back
 }
 
 func drawHistory(t *rapid.T, kind string) []HistStep {
 	max := histMax[kind]
 	if max == 0 || rapid.IntRange(0, 3).Draw(t, "hist?") == 0 {
+		return nil
+	}
+	if kind == "s3" && rapid.Bool().Draw(t, "hist-s3?") {
 		return nil
 	}
 	l := rapid.IntRange(1, max).Draw(t, "histlen")
